@@ -5,6 +5,7 @@ use crate::runner::{Meta, Session};
 
 pub mod builder;
 pub mod chainmisc;
+pub mod crash;
 pub mod envelope;
 pub mod inscriptions;
 pub mod pure_ordinals;
@@ -30,6 +31,7 @@ pub fn dispatch(id: &str) -> Option<fn(&mut Session) -> Meta> {
     "C10" => runes::c10,
     "C11" => runes::c11,
     "C12" => sats::c12,
+    "C13" => crash::c13,
     "C14" => reorg::c14,
     "C15" => chainmisc::c15,
     "C16" => chainmisc::c16,
@@ -53,6 +55,9 @@ pub fn dispatch(id: &str) -> Option<fn(&mut Session) -> Meta> {
 }
 
 /// Worker sub-commands (`ordverif --internal-... args`).
-pub fn internal(_command: &str, _args: &[String]) -> i32 {
-  2
+pub fn internal(command: &str, args: &[String]) -> i32 {
+  match command {
+    "--internal-c13-worker" => crash::worker(args),
+    _ => 2,
+  }
 }
